@@ -1,6 +1,6 @@
 """Builder / writer programs and the reference encoder (independent of the Lean model)."""
 from .common import hexs
-from .v2gen import SIG, FAM_SIZE, TR_NAME, spec, rand_bytes, tlv_enc
+from .v2gen import SIG, FAM_SIZE, TR_NAME, spec, rand_bytes, tlv_enc, special_v4, special_v6, special_unix
 
 TYPE_CODES = {
     "alpn": 0x01, "authority": 0x02, "crc32c": 0x03, "noop": 0x04, "uniqueid": 0x05,
@@ -40,11 +40,14 @@ def rand_addr(rng, kind=None):
     port = lambda: rng.choice([0, 1, 255, 256, 65535, rng.getrandbits(16)])
     if kind == "unspec":
         return ("unspec",)
+    # about half of the values are structured (IPv4-mapped IPv6, C-string-like socket paths, ...):
+    # a transformation keyed on the address value never fires on uniformly random bytes
+    sp = lambda special, n: special(rng) if rng.random() < 0.5 else rand_bytes(rng, n)
     if kind == "ipv4":
-        return ("ipv4", rand_bytes(rng, 4), rand_bytes(rng, 4), port(), port())
+        return ("ipv4", sp(special_v4, 4), sp(special_v4, 4), port(), port())
     if kind == "ipv6":
-        return ("ipv6", rand_bytes(rng, 16), rand_bytes(rng, 16), port(), port())
-    return ("unix", rand_bytes(rng, 108), rand_bytes(rng, 108))
+        return ("ipv6", sp(special_v6, 16), sp(special_v6, 16), port(), port())
+    return ("unix", sp(special_unix, 108), sp(special_unix, 108))
 
 
 # ---- payloads -------------------------------------------------------------------------------
